@@ -21,3 +21,25 @@ CLAIMS["C09"] = {
             "Exploration: does not prove absence of further divergences.",
     "note": "Clock steps are whole seconds; batches never name one address twice; per-peer caps disabled in the exact-oracle configuration; the datastore double applies each write atomically (crash = close/reopen).",
 }
+
+CLAIMS["C03"] = {
+    "technique": "model-based stateful property testing (rapid state machine vs. an independent reference model), plus a concurrent bounds/quiescent-sum property under the race detector",
+    "design_ref": "DESIGN.md section 3, C03",
+    "text": "Generated histories of every resource-manager operation (incl. allow-listed endpoints, IPv6/v4-mapped/no-IP endpoints, nested spans, View* reservations, Done in any order, scope GC) "
+            "run against the real manager built from a generated limit table and are audited after every step: each scope's reported usage must equal the sum of the model's holders charged to it, "
+            "stay within [0, limit], acceptance must match the model in both directions, limit refusals must wrap the sentinel and change nothing, refused re-parenting must leave the holder in a legal "
+            "scope set, per-subnet/prefix caps are recounted from the open connections, and everything reads zero at the end. A second property runs the operations from 2-8 goroutines and checks bounds "
+            "continuously and the exact sum at quiescence (also under -race in the thorough tier). Exploration; one genuine defect repaired, one listed as known finding (excluded by construction, counted).",
+    "note": "Hidden scopes (allow-listed system/transient, per-peer sub-scopes) are observed through the public trace reporter; connection rate limiter disabled; SetPeer/SetProtocol/SetService are not issued on closed holders; "
+            "the concurrent property samples interleavings produced by the Go scheduler.",
+}
+CLAIMS["C17"] = {
+    "technique": "model-based property testing of observation/close histories (rapid, one synctest bubble per case) plus deterministic boundary / top-3 / ineligible-class sweeps against a model recomputed from the history",
+    "design_ref": "DESIGN.md section 3, C17",
+    "text": "The real observedaddrs.Manager is driven through its public API on a real event bus with generated histories of observe / re-observe / change report / close / observe-after-close / clock advance over "
+            "populations with shared IPv4s, shared IPv6 /56s, TCP and QUIC/WebTransport listen addresses sharing a thin waist and reported addresses of every class; after every event AddrsFor (every listen and non-listen "
+            "address), Addrs(0) and Addrs(k) are compared with a model that counts distinct observer groups on currently open connections: only addresses with >= threshold groups, at most three per local address, "
+            "most-observed first, no strictly better address omitted, ineligible reports never count, closes and changed reports are withdrawn at once. 32 seeded faults were all detected in the quick tier. Exploration.",
+    "note": "A connection's credited report is its latest eligible one (a later ineligible report does not withdraw it); transport consistency is read at thin-waist level; listen addresses fixed per history; "
+            "one event per quiescence point so the 16-slot queue never drops; ties at the cut are free.",
+}
